@@ -215,7 +215,7 @@ func cmdSig(fs *flag.FlagSet) {
 	shards := fs.Int("shards", 16, "shards")
 	every := fs.Int("every", 1, "replay every n-th case")
 	fs.Parse(os.Args[2:])
-	startWatchdog(10 * time.Second)
+	startWatchdog(60 * time.Second)
 	f, err := os.Open(*in)
 	if err != nil {
 		fatal("open: %v", err)
